@@ -179,7 +179,7 @@ pub fn history_guard(rng: &mut Rng, e: &mut Engine) {
 pub fn gen_plumb(seed: u64, tag: &str, thorough: bool) {
     let mut rng = Rng::new(seed ^ 0x91b0_0000_u64);
     let src = Sources::new();
-    let n = if thorough { 400 } else { 60 };
+    let n = if thorough { 400 } else { 24 };
     for k in 0..n {
         let (mut e, _) = src.any_engine(&mut rng);
         random_condition_inner(&mut rng, &mut e, true);
